@@ -183,12 +183,24 @@ theorem finishEnter_res (c : FsmCls) (st : String) (d : Dyn) :
     (finishEnter c st d).2 = .ret (.bool true) ∨ (finishEnter c st d).2 = .handlerError := by
   unfold finishEnter; split <;> simp
 
+theorem fsmChain_res (c : FsmCls) (now : Time) (fuel : Nat) (d : Dyn) (st : String) :
+    (fsmChain c now fuel d st).2.1 = .ret (.bool true) ∨ (fsmChain c now fuel d st).2.1 = .handlerError := by
+  induction fuel generalizing d st with
+  | zero => exact Or.inr rfl
+  | succ n ih =>
+    unfold fsmChain
+    simp only
+    split
+    · exact Or.inr rfl
+    · split
+      · exact ih _ _
+      · exact Or.inr rfl
+      · exact finishEnter_res ..
+      · exact finishEnter_res ..
+
 theorem fsmEnter_res (c : FsmCls) (now : Time) (d : Dyn) (st : String) :
-    (fsmEnter c now d st).2 = .ret (.bool true) ∨ (fsmEnter c now d st).2 = .handlerError := by
-  unfold fsmEnter
-  split
-  · exact Or.inr rfl
-  · exact finishEnter_res ..
+    (fsmEnter c now d st).2 = .ret (.bool true) ∨ (fsmEnter c now d st).2 = .handlerError :=
+  fsmChain_res c now _ d st
 
 theorem fsmEnter_not_quiet (c : FsmCls) (now : Time) (d : Dyn) (st : String) :
     ¬ (fsmEnter c now d st).2.quiet := by
@@ -204,32 +216,6 @@ theorem finishEnter_ret (c : FsmCls) (st : String) (d : Dyn) {d' : Dyn} {v : Val
     exact ⟨o, ho, h.1.symm⟩
   · simp at h
 
-/-- a completed transition yields a well-formed state, whatever the state before was -/
-theorem fsmEnter_ok (c : FsmCls) (now : Time) (d : Dyn) (st : String) (hs : c.states.contains st = true)
-    {d' : Dyn} {v : Val} (h : fsmEnter c now d st = (d', .ret v)) : DynOk (.fsm c) d' ∧ d'.inited = true := by
-  simp only [fsmEnter] at h
-  split at h
-  · simp at h
-  · have h1 := armTimer_other c now st (enterEffect (c.enterOf st)
-      { d with fstate := st, timer := none, entered := d.entered ++ [st] })
-    have h2 := enterEffect_other (c.enterOf st)
-      { d with fstate := st, timer := none, entered := d.entered ++ [st] }
-    have hf := h1.1.trans h2.1
-    have ht := armTimer_timer c now st (enterEffect (c.enterOf st)
-      { d with fstate := st, timer := none, entered := d.entered ++ [st] }) (by rw [h2.2.1])
-    generalize armTimer c now st (enterEffect (c.enterOf st)
-      { d with fstate := st, timer := none, entered := d.entered ++ [st] }) = dA at h hf ht
-    simp only at hf
-    obtain ⟨o, ho, rfl⟩ := finishEnter_ret c st dA h
-    refine ⟨⟨?_, ?_, ?_⟩, rfl⟩
-    · show c.states.contains dA.fstate = true
-      rw [hf]; exact hs
-    · show c.calcOut dA.fstate dA.sdata = some o
-      rw [hf]; exact ho
-    · intro t tev h3
-      show c.timedEv dA.fstate = some tev
-      rw [hf]; exact ht t tev h3
-
 theorem next_mem (c : FsmCls) (hv : c.valid = true) {e fs st : String} (h : c.next e fs = some st) :
     c.states.contains st = true := by
   have hall : ∀ t ∈ c.trans, c.states.contains t.2.2 = true := by
@@ -243,6 +229,84 @@ theorem next_mem (c : FsmCls) (hv : c.valid = true) {e fs st : String} (h : c.ne
   · simp only [Option.map_eq_some_iff] at h
     obtain ⟨t, ht, rfl⟩ := h
     exact hall t (List.mem_of_find?_eq_some ht)
+
+/-- a request parked by an entry action leads to a state of the FSM -/
+theorem nestedEvent_parked (c : FsmCls) (hv : c.valid = true) (d : Dyn) (en : Enter) {st : String}
+    (h : nestedEvent c d en = some (.parked st)) : c.states.contains st = true := by
+  cases en with
+  | chain e =>
+    simp only [nestedEvent] at h
+    split at h
+    · simp at h
+    · split at h
+      · simp at h
+      · next st' hn =>
+        have hm := next_mem c hv hn
+        split at h
+        · simp only [Option.some.injEq, Nested.parked.injEq] at h; rw [← h]; exact hm
+        · split at h <;> try simp at h
+          · rw [← h]; exact hm
+          · split at h
+            · simp at h
+            · simp only [Option.some.injEq, Nested.parked.injEq] at h; rw [← h]; exact hm
+  | goto s =>
+    simp only [nestedEvent] at h
+    split at h
+    · next hs => simp only [Option.some.injEq, Nested.parked.injEq] at h; rw [← h]; exact hs
+    · simp at h
+  | nop => simp [nestedEvent] at h
+  | setS k v => simp [nestedEvent] at h
+  | raise => simp [nestedEvent] at h
+
+/-- the last step of a transition: timer and output of the state just entered -/
+theorem finishArm_ok (c : FsmCls) (now : Time) (d : Dyn) (st : String) (hs : c.states.contains st = true)
+    {d' : Dyn} {v : Val}
+    (h : finishEnter c st (armTimer c now st (enterEffect (c.enterOf st)
+      { d with fstate := st, timer := none, entered := d.entered ++ [st] })) = (d', .ret v)) :
+    DynOk (.fsm c) d' ∧ d'.inited = true := by
+  have h1 := armTimer_other c now st (enterEffect (c.enterOf st)
+    { d with fstate := st, timer := none, entered := d.entered ++ [st] })
+  have h2 := enterEffect_other (c.enterOf st)
+    { d with fstate := st, timer := none, entered := d.entered ++ [st] }
+  have hf := h1.1.trans h2.1
+  have ht := armTimer_timer c now st (enterEffect (c.enterOf st)
+    { d with fstate := st, timer := none, entered := d.entered ++ [st] }) (by rw [h2.2.1])
+  generalize armTimer c now st (enterEffect (c.enterOf st)
+    { d with fstate := st, timer := none, entered := d.entered ++ [st] }) = dA at h hf ht
+  simp only at hf
+  obtain ⟨o, ho, rfl⟩ := finishEnter_ret c st dA h
+  refine ⟨⟨?_, ?_, ?_⟩, rfl⟩
+  · show c.states.contains dA.fstate = true
+    rw [hf]; exact hs
+  · show c.calcOut dA.fstate dA.sdata = some o
+    rw [hf]; exact ho
+  · intro t tev h3
+    show c.timedEv dA.fstate = some tev
+    rw [hf]; exact ht t tev h3
+
+theorem fsmChain_ok (c : FsmCls) (hv : c.valid = true) (now : Time) (fuel : Nat) (d : Dyn) (st : String)
+    (hs : c.states.contains st = true) {d' : Dyn} {v : Val}
+    (h : (fsmChain c now fuel d st).1 = d' ∧ (fsmChain c now fuel d st).2.1 = .ret v) :
+    DynOk (.fsm c) d' ∧ d'.inited = true := by
+  induction fuel generalizing d st with
+  | zero => simp [fsmChain] at h
+  | succ n ih =>
+    unfold fsmChain at h
+    simp only at h
+    split at h
+    · simp at h
+    · split at h
+      · next st' hn => exact ih _ _ (nestedEvent_parked c hv _ _ hn) h
+      · simp at h
+      · exact finishArm_ok c now d st hs (Prod.ext h.1 h.2)
+      · exact finishArm_ok c now d st hs (Prod.ext h.1 h.2)
+
+/-- a completed transition yields a well-formed state, whatever the state before was -/
+theorem fsmEnter_ok (c : FsmCls) (hv : c.valid = true) (now : Time) (d : Dyn) (st : String)
+    (hs : c.states.contains st = true)
+    {d' : Dyn} {v : Val} (h : fsmEnter c now d st = (d', .ret v)) : DynOk (.fsm c) d' ∧ d'.inited = true := by
+  simp only [fsmEnter, Prod.mk.injEq] at h
+  exact fsmChain_ok c hv now _ d st hs h
 
 /-- the outcomes of a named FSM event -/
 theorem fsmNamed_cases (c : FsmCls) (now : Time) (d : Dyn) (e : String) (v : Option Val) :
@@ -282,7 +346,7 @@ theorem fsmNamed_ok (c : FsmCls) (hv : c.valid = true) (now : Time) (d : Dyn) (e
   · rw [h1] at h; simp at h
   · rw [h1] at h; simp only [Prod.mk.injEq] at h; rw [← h.1]; exact hd
   · rw [h1] at h; simp at h
-  · rw [h1] at h; exact fsmEnter_ok c now d0 st (next_mem c hv h2) h
+  · rw [h1] at h; exact fsmEnter_ok c hv now d0 st (next_mem c hv h2) h
 
 theorem fsmEvent_quiet (c : FsmCls) (now : Time) (d : Dyn) (ev : Ev)
     (h : (fsmEvent c now d ev).2.quiet) : (fsmEvent c now d ev).1 = d := by
@@ -301,7 +365,7 @@ theorem fsmEvent_ok (c : FsmCls) (hv : c.valid = true) (now : Time) (d : Dyn) (e
   unfold fsmEvent at h
   split at h
   · split at h
-    · next hs => exact fsmEnter_ok c now d _ hs h
+    · next hs => exact fsmEnter_ok c hv now d _ hs h
     · simp at h
   · split at h
     · exact fsmNamed_ok c hv now d _ _ hd h
@@ -525,7 +589,7 @@ theorem regularInit_ok (k : Kind) (hv : KindValid k) (cal : Val → Option Bool)
       obtain ⟨rfl, _⟩ := h
       rcases fsmEnter_res c now { sdata := c.initSdata } c.initState with h1 | h1
       · rw [heq] at h1; simp only at h1; subst h1
-        exact (fsmEnter_ok c now _ _ (valid_initState hv) heq).1
+        exact (fsmEnter_ok c hv now _ _ (valid_initState hv) heq).1
       · rw [heq] at h1; simp only at h1; subst h1; exact absurd rfl hne
 
 end Edzed.Persist
@@ -730,7 +794,7 @@ theorem timedEv_ok {c : FsmCls} (hv : c.valid = true) {st : String} {tev : TEv}
   simp only [FsmCls.valid, Bool.and_eq_true, List.all_eq_true] at hv
   simp only [FsmCls.timedEv, FsmCls.timerOf, Option.map_eq_some_iff] at h
   obtain ⟨p, ⟨q, hq, rfl⟩, rfl⟩ := h
-  exact hv.1.1 q (List.mem_of_find?_eq_some hq)
+  exact hv.1.1.2 q (List.mem_of_find?_eq_some hq)
 
 /-- the timed event of an active timer is never answered with a harmless exception -/
 theorem tev_handled (k : Kind) (hv : KindValid k) (d : Dyn) (hd : DynOk k d) {t : Time} {tev : TEv}
@@ -1748,5 +1812,82 @@ theorem saveAllF_nofault (s : Storage) (bs : List Blk) : saveAllF {} s bs = (sav
   induction bs generalizing s with
   | nil => rfl
   | cons b r ih => simp only [saveAllF, saveBlkF_nofault, ih, saveAll, List.foldl_cons]
+
+/-! ### nested calls of the event wrapper -/
+
+theorem wrapperSave_nested (s : Storage) (b : Blk) : wrapperSave true s b = (s, false) := by
+  simp [wrapperSave]
+
+theorem nestedSaves_eq (b : Blk) (mids : List Dyn) (s : Storage) (log : List Storage) :
+    nestedSaves b mids s log = (s, log) := by
+  unfold nestedSaves
+  induction mids with
+  | nil => rfl
+  | cons m r ih => simp only [List.foldl_cons, wrapperSave_nested]; exact ih
+
+/-- the wrapper with its nested calls computes the circuit and the result of `Circ.event` -/
+theorem eventN_is_event (c : Circ) (cal : Val → Option Bool) (i : Nat) (ev : Ev) :
+    (c.eventN cal i ev).map (fun x => (x.1, x.2.1)) = c.event cal i ev := by
+  unfold Circ.eventN Circ.event
+  split
+  · rfl
+  · split
+    · rfl
+    · next b hb =>
+      simp only [nestedSaves_eq]
+      generalize blockEvent b.kind cal c.now b.dyn ev = p
+      obtain ⟨d, r⟩ := p
+      cases r <;> simp [wrapperSave] <;> split <;> simp_all
+
+/-- the writes of an event: none, or exactly one - the final storage - and then the event was handled -/
+theorem eventN_writes {c c' : Circ} {cal : Val → Option Bool} {i : Nat} {ev : Ev} {r : Res} {ws : List Storage}
+    (h : c.eventN cal i ev = some (c', r, ws)) :
+    (ws = [] ∧ c'.store = c.store) ∨ (∃ v, r = .ret v ∧ ws = [c'.store]) := by
+  unfold Circ.eventN at h
+  split at h
+  · simp at h
+  · split at h
+    · simp at h
+    · next b hb =>
+      simp only [nestedSaves_eq] at h
+      generalize blockEvent b.kind cal c.now b.dyn ev = p at h
+      obtain ⟨d, r0⟩ := p
+      cases r0 with
+      | ret v =>
+        simp only [Option.some.injEq, Prod.mk.injEq] at h
+        obtain ⟨rfl, rfl, rfl⟩ := h
+        unfold wrapperSave
+        split
+        · exact Or.inr ⟨v, rfl, by simp⟩
+        · exact Or.inl ⟨by simp, rfl⟩
+      | handlerError =>
+        simp only [Option.some.injEq, Prod.mk.injEq] at h
+        obtain ⟨rfl, rfl, rfl⟩ := h
+        exact Or.inl ⟨rfl, rfl⟩
+      | paramError =>
+        simp only [Option.some.injEq, Prod.mk.injEq] at h
+        obtain ⟨rfl, rfl, rfl⟩ := h
+        exact Or.inl ⟨rfl, rfl⟩
+      | unknown =>
+        simp only [Option.some.injEq, Prod.mk.injEq] at h
+        obtain ⟨rfl, rfl, rfl⟩ := h
+        exact Or.inl ⟨rfl, rfl⟩
+
+theorem eventN_event {c c' : Circ} {cal : Val → Option Bool} {i : Nat} {ev : Ev} {r : Res} {ws : List Storage}
+    (h : c.eventN cal i ev = some (c', r, ws)) : c.event cal i ev = some (c', r) := by
+  rw [← eventN_is_event, h]; rfl
+
+theorem fireN_is_fire (c : Circ) (cal : Val → Option Bool) (i : Nat) :
+    (c.fireN cal i).map (fun x => (x.1, x.2.1)) = c.fire cal i := by
+  unfold Circ.fireN Circ.fire
+  split
+  · rfl
+  · split
+    · rfl
+    · split
+      · rfl
+      · split
+        · rfl
+        · exact eventN_is_event ..
 
 end Edzed.Persist
